@@ -33,6 +33,7 @@ pub fn judge_text(db: &Db, e: &Expr, text: &str) -> Judged {
         (RefVal::Undefined(r), Res::Ok { .. }) => Judged::Mismatch(format!("statement prescribes an error ({r}), tool returned {}", got.short())),
         (RefVal::Defined { si, .. }, Res::Err { msg, .. }) => Judged::Mismatch(format!("expected {} , tool reported error: {msg}", si.short())),
         (RefVal::Defined { si, .. }, Res::Ok { value, unit, .. }) => match units::si_of(value, unit, false) {
+            Err(e) if e.contains("is not in the documented table") => Judged::DontCare("the result carries a unit that is not in the harness's table"),
             Err(e) => Judged::Mismatch(format!("result unit not interpretable: {e}")),
             Ok(gsi) => {
                 if &gsi == si {
